@@ -18,7 +18,8 @@ SPEC = {
         ("non-emitting search, link to the next observation(segment objects per call)", 'ne_end', '^fresh:'),
         ("order independence of the expansion: for EVERY predecessor and EVERY neighbour the candidate is generated, and candidates for the same state are merged by keep-the-better (never first-come-first-served)", 'match_states', r'^(cover:|insert:)'),
         ("order independence of the non-emitting step: one call per admissible neighbour of every live entry; filed or merged through update()", 'ne_inner', r'^(ne-inner:one-non|file:)'),
-        ("order independence of the link to the next observation", 'ne_end', r'^ne-end:(one-emitting|worse|new-state|dropped|next-column)')],
+        ("order independence of the link to the next observation", 'ne_end', r'^ne-end:(one-emitting|worse|new-state|dropped|next-column)'),
+        ("_node_in_prev_ne(walks back over `prev` only - a set that holds one entry - so hash order cannot decide the answer)", 'visited', r'^visited:')],
     'bounded': [
         ('map-order-permutations', suites.case_C10, 1500, 200000, RULE + '; ' + 'non-trivial = >= 3 nodes or an exact tie in some column', '')],
 }
